@@ -439,6 +439,40 @@ theorem accel_matches_neptune :
   rw [lead2_scaled _ _ _ _ Tables.Neptune.L_lead2]
   apply accel_of_bounds <;> norm_num [Spec.elemAccel, Neptune_ORBITAL_ELEM, expA]
 
+/-! ### `orbital_elements`: which rows of which table -/
+
+/-- `orbital_elements(epoch, ORBITAL_ELEM, ORBITAL_ELEM_J2000)` (the `len(parameters2) == 4` branch): L, i, Ω, ϖ are
+    the cubics of rows 0, 1, 2, 3 of the J2000 table, `a` and `e` those of rows 1 and 2 of the mean-equinox
+    table, T in Julian centuries from J2000.0; the angles are returned as `Angle`s and the last one is the
+    argument of perihelion ϖ − Ω.  For all coefficients and all epochs. -/
+theorem orbital_elements_rows_j2000 (jde : ℝ) (r0 r3 r4 r5 : List ℝ)
+    (a0 a1 a2 a3 e0 e1 e2 e3 l0 l1 l2 l3 i0 i1 i2 i3 o0 o1 o2 o3 p0 p1 p2 p3 : ℝ) :
+    orbital_elements jde [r0, [a0, a1, a2, a3], [e0, e1, e2, e3], r3, r4, r5]
+        [[l0, l1, l2, l3], [i0, i1, i2, i3], [o0, o1, o2, o3], [p0, p1, p2, p3]] =
+      (let t := (jde - 2451545.0) / 36525.0
+       .ok (angOfDeg (Spec.cubic t l0 l1 l2 l3), Spec.cubic t a0 a1 a2 a3, Spec.cubic t e0 e1 e2 e3,
+         angOfDeg (Spec.cubic t i0 i1 i2 i3), angOfDeg (Spec.cubic t o0 o1 o2 o3),
+         angOfDeg (Spec.cubic t p0 p1 p2 p3 - Spec.cubic t o0 o1 o2 o3))) := by
+  simp [orbital_elements, element_at, compute_element, Spec.cubic]
+
+/-- `orbital_elements(epoch, ORBITAL_ELEM, ORBITAL_ELEM)` (six-row second table): L, a, e, i, Ω, ϖ are the cubics of
+    rows 0 … 5. -/
+theorem orbital_elements_rows_of_date (jde : ℝ)
+    (a0 a1 a2 a3 e0 e1 e2 e3 l0 l1 l2 l3 i0 i1 i2 i3 o0 o1 o2 o3 p0 p1 p2 p3 : ℝ) :
+    orbital_elements jde [[l0, l1, l2, l3], [a0, a1, a2, a3], [e0, e1, e2, e3], [i0, i1, i2, i3], [o0, o1, o2, o3], [p0, p1, p2, p3]]
+        [[l0, l1, l2, l3], [a0, a1, a2, a3], [e0, e1, e2, e3], [i0, i1, i2, i3], [o0, o1, o2, o3], [p0, p1, p2, p3]] =
+      (let t := (jde - 2451545.0) / 36525.0
+       .ok (angOfDeg (Spec.cubic t l0 l1 l2 l3), Spec.cubic t a0 a1 a2 a3, Spec.cubic t e0 e1 e2 e3,
+         angOfDeg (Spec.cubic t i0 i1 i2 i3), angOfDeg (Spec.cubic t o0 o1 o2 o3),
+         angOfDeg (Spec.cubic t p0 p1 p2 p3 - Spec.cubic t o0 o1 o2 o3))) := by
+  simp [orbital_elements, element_at, compute_element, Spec.cubic]
+
+/-- A missing row raises (IndexError) instead of being read as zero. -/
+theorem orbital_elements_missing_row (jde : ℝ) (p1 : List (List ℝ)) :
+    orbital_elements jde p1 [] = .error .other := by
+  simp [orbital_elements, element_at]
+
+
 /-! ### The wrappers -/
 
 /-- The per-planet methods (generated from the source) are the evaluators applied to the planet's own
@@ -494,6 +528,8 @@ theorem planets_defined (jde : ℝ) (f : Bool) :
 
 /-! ### non-vacuity: the objects the theorems speak about are the non-trivial ones -/
 
+example : Venus_ORBITAL_ELEM.map List.length = [4, 4, 4, 4, 4, 4] ∧ Venus_ORBITAL_ELEM_J2000.map List.length = [4, 4, 4, 4] :=
+  ⟨rfl, rfl⟩
 example : Spec.elemAccel Venus_ORBITAL_ELEM = 0.00031014 := by norm_num [Spec.elemAccel, Venus_ORBITAL_ELEM]
 example : Spec.elemRate Venus_ORBITAL_ELEM = 58519.2130302 := by norm_num [Spec.elemRate, Venus_ORBITAL_ELEM]
 example : Spec.semiMajorAxis Neptune_ORBITAL_ELEM = 30.110386869 := by norm_num [Spec.semiMajorAxis, Neptune_ORBITAL_ELEM]
